@@ -34,23 +34,22 @@ def plan(tier):
                  cfg=dict(NS=2, NO=2, MaxOps=3, KB=('opt', 'nonopt'), OpSet=SCALAR + ('D', 'GFU'))),
         ]
     return [
-        dict(name='c20-2s-1o-3ops-full', how='graph', limit=None,
-             cfg=dict(NS=2, NO=1, MaxOps=3, OpSet=SCALAR)),
+        # the quick bound with the full alphabet, every attribute kind: exhaustive + several thousand replays
+        dict(name='c20-2s-1o-3ops-kinds', how='graph', limit=5000,
+             cfg=dict(NS=2, NO=1, MaxOps=3, KB=('opt', 'nonopt', 'volatile'), OpSet=SCALAR)),
+        # every session mode, deletes, locked objects, rollback; -coverage: no action of the module is dead
         dict(name='c20-coverage', how='check', coverage=True,
              cfg=dict(NS=2, NO=1, MaxOps=2, Modes=('opt', 'imm', 'ser'), OpSet=SCALAR + ('D', 'GFU', 'X'))),
-        dict(name='c20-2s-2o-2ops', how='graph', limit=4000,
-             cfg=dict(NS=2, NO=2, MaxOps=2, OpSet=SCALAR + ('D',))),
-        dict(name='c20-nonopt', how='graph', limit=2500,
-             cfg=dict(NS=2, NO=1, MaxOps=3, KB='nonopt', OpSet=SCALAR)),
-        dict(name='c20-volatile', how='graph', limit=2500,
-             cfg=dict(NS=2, NO=1, MaxOps=3, KB='volatile', OpSet=SCALAR)),
-        dict(name='c20-3s-1o-2ops', how='graph', limit=3000,
+        # 3 sessions (FIFO of blocked acquirers), exhaustive
+        dict(name='c20-3s-1o-2ops', how='check',
              cfg=dict(NS=3, NO=1, MaxOps=2, OpSet=('R', 'W', 'F'))),
-        # 3 sessions, programs <= 4, two rows: exhaustive search does not finish in the budget -> simulation
-        dict(name='c20-3s-2o-4ops-sim', how='simulate', num=3000, depth=22,
+        dict(name='c20-2s-2o-2ops', how='graph', limit=3000,
+             cfg=dict(NS=2, NO=2, MaxOps=2, OpSet=SCALAR + ('D',))),
+        # 3 sessions, programs <= 4, two rows: the exhaustive search does not finish in the budget -> simulation
+        dict(name='c20-3s-2o-4ops-sim', how='simulate', num=2500, depth=24,
              cfg=dict(NS=3, NO=2, MaxOps=4, Modes=('opt', 'imm'), OpSet=SCALAR + ('D', 'GFU', 'X'))),
-        dict(name='c20-3s-kinds-sim', how='simulate', num=1200, depth=22,
-             cfg=dict(NS=3, NO=2, MaxOps=4, KA='nonopt', KB='opt', OpSet=SCALAR + ('D',))),
+        dict(name='c20-3s-kinds-sim', how='simulate', num=800, depth=24,
+             cfg=dict(NS=3, NO=2, MaxOps=4, KA=('nonopt', 'volatile'), OpSet=SCALAR + ('D',))),
     ]
 
 
